@@ -29,6 +29,9 @@ RawVals(n) ==
         Shl(One, WidthOf(n) \div 2), Sub(Shl(One, WidthOf(n) \div 2), One), W(WidthOf(n) - 1), W(WidthOf(n)), W(100), Neg(W(100))}
 Vals(n) == IF n = "bool" THEN {Zero, One} ELSE {Canon(n, w) : w \in RawVals(n)}
 
+(* values on which signed and unsigned readings of an operand differ, plus a small positive one *)
+SigVals(n) == IF n = "bool" THEN {One} ELSE {Canon(n, Ones), Canon(n, W(2)), MinOf(n)}
+SigOps == {"<", ">=", "/", "%", ">>"}
 BinCase(op, lt, rt, a, b) ==      \* a, b canonical of lt, rt
   LET ln == Promote(lt, 0)  rn == Promote(rt, 0)
       la == Canon(ln, a)  ra == Canon(rn, b)
@@ -109,6 +112,10 @@ EmitAll ==
          \A a \in Vals(cas.lt), b \in Vals(cas.rt) :
            LET r == BinCase(cas.op, cas.lt, cas.rt, a, b) IN
            r.ok => Out([k |-> "bin", op |-> cas.op, lt |-> cas.lt, rt |-> cas.rt, a |-> a, b |-> b, t |-> r.t.n, v |-> r.v, cs |-> CharSigned])
+    [] cas.kind = "binsig" ->    \* sign-sensitive operators on every type pair, always enumerated: the common type of 6.3.1.8 decides the result
+         \A a \in SigVals(cas.lt), b \in SigVals(cas.rt) :
+           LET r == BinCase(cas.op, cas.lt, cas.rt, a, b) IN
+           r.ok => Out([k |-> "bin", op |-> cas.op, lt |-> cas.lt, rt |-> cas.rt, a |-> a, b |-> b, t |-> r.t.n, v |-> r.v, cs |-> CharSigned])
     [] cas.kind = "casg" ->      \* lt x = a; x op= b; value of x afterwards
          \A a \in Vals(cas.lt), b \in Vals(cas.rt) :
            LET r == BinCase(cas.op, cas.lt, cas.rt, a, b) IN
@@ -172,6 +179,7 @@ Cases ==
             l \in FTypes, r \in FTypes \cup {"char", "int", "uint", "long", "ulong"}}
   \cup {[kind |-> "fbin", op |-> o, lt |-> l, rt |-> r] : o \in {"-", "/", "<"}, l \in {"int", "ulong"}, r \in FTypes}
   \cup ChainCases
+  \cup {[kind |-> "binsig", op |-> o, lt |-> l, rt |-> r] : o \in SigOps, l \in Types, r \in Types}
 
 TypeSeq == <<"bool", "char", "schar", "uchar", "short", "ushort", "int", "uint", "long", "ulong", "llong", "ullong", "float", "double">>
 OpSeq == <<"+", "-", "*", "/", "%", "&", "|", "^", "<<", ">>", "<", "<=", ">", ">=", "==", "!=", "~", "!", "cast">>
@@ -183,7 +191,7 @@ InSlice(c) == IF c.kind = "fbin" THEN Hash(c) % NPartsF = Part % NPartsF ELSE Ha
 (* chains: every pair of operators always; triples cut into 8 slices when the case space is sliced at all *)
 ChainHash(c) == IndexIn(ChainOpSeq, c.ops[1]) * 7 + IndexIn(ChainOpSeq, c.ops[2]) * 3 + IndexIn(ChainOpSeq, c.ops[3])
 ChainInSlice(c) == Len(c.ops) = 2 \/ NParts = 1 \/ ChainHash(c) % 8 = Part % 8
-Selected(c) == IF c.kind = "chain" THEN ChainInSlice(c) ELSE c.kind \in {"cast", "un", "cast2", "f2i", "i2f", "bincast"} \/ InSlice(c)
+Selected(c) == IF c.kind = "chain" THEN ChainInSlice(c) ELSE c.kind \in {"cast", "un", "cast2", "f2i", "i2f", "bincast", "binsig"} \/ InSlice(c)
 
 (* the second program of C_PROGS has unsigned plain char: only cases mentioning char differ *)
 OInit == /\ cpid \in 1..Len(CProgs)
